@@ -10,7 +10,7 @@ from __future__ import annotations
 
 import random
 import zlib
-from typing import Any, Dict, List, Optional, Set, Tuple
+from typing import Any, Dict, List, Optional, Sequence, Set, Tuple
 
 from vf.gen.pdfw import Name, Ref, Stream, ser, ser_dict, ser_indirect
 
@@ -124,8 +124,9 @@ def render_history(history: List[Dict[str, Any]], rng: random.Random, forms: Opt
             trailer["Prev"] = prev_xref
         eol = rng.choice(EOLS)
 
-        def write_table(entries: Dict[int, int], trailer_d: Dict[str, Any], first: bool) -> int:
-            """entries: objid -> offset.  Returns the offset of the 'xref' keyword."""
+        def write_table(entries: Dict[int, int], trailer_d: Dict[str, Any], first: bool, hidden: Sequence[int] = ()) -> int:
+            """entries: objid -> offset.  Returns the offset of the 'xref' keyword.  hidden: objects that this
+            revision's /XRefStm defines; a hybrid file lists them as free in the table (7.5.8.4)."""
             start = len(out)
             xeol = rng.choice(EOLS)
             R.features.add("xref_kw_eol:" + {b"\n": "LF", b"\r\n": "CRLF", b"\r": "CR"}[xeol])
@@ -135,6 +136,10 @@ def render_history(history: List[Dict[str, Any]], rng: random.Random, forms: Opt
             listed: Dict[int, Optional[int]] = {n: entries[n] for n in ids}
             if free0:
                 listed[0] = None
+            for n in hidden:
+                if n not in listed:
+                    listed[n] = None
+                    R.features.add("hybrid_hidden_listed_free")
             # optionally merge runs by writing free entries for ids nobody ever defines
             if rng.random() < 0.4:
                 keys = sorted(listed)
@@ -158,7 +163,10 @@ def render_history(history: List[Dict[str, Any]], rng: random.Random, forms: Opt
                         out.extend(b"%010d %05d n" % (listed[n], 0) + e2)
             td = dict(trailer_d)
             td["Size"] = size
-            out.extend(b"trailer" + rng.choice(EOLS) + ser_dict(td) + eol)
+            tsep = rng.choice(EOLS + [b" ", b""])     # the dictionary may start on the keyword's own line
+            if tsep in (b" ", b""):
+                R.features.add("trailer_dict_on_keyword_line")
+            out.extend(b"trailer" + tsep + ser_dict(td) + eol)
             return start
 
         def write_xref_stream(entries: Dict[int, Tuple[int, int, int]], extra: Dict[str, Any], first: bool, own: bool) -> int:
@@ -278,7 +286,7 @@ def render_history(history: List[Dict[str, Any]], rng: random.Random, forms: Opt
                 tab_ents[nextc - 1] = xpos
             t2 = dict(trailer)
             t2["XRefStm"] = xpos
-            prev_xref = write_table(tab_ents, t2, first)
+            prev_xref = write_table(tab_ents, t2, first, hidden=sorted(stm_ents) if rng.random() < 0.5 else ())
             startxref = prev_xref
         # tail
         seol = rng.choice(EOLS)
